@@ -621,14 +621,12 @@ func (p *Parser) parseSlots() []*ast.SlotStmt {
 			if !p.expectPeek(token.RPAREN) { // move to ")"
 				return nil
 			}
-
-			p.nextToken() // skip ")"
 		}
 
 		slots = append(slots, &ast.SlotStmt{
 			Token: tok, // "@slot"
 			Name:  slotName,
-			Body:  p.parseBlockStmt(),
+			Body:  p.parseBody(),
 		})
 
 		p.nextToken() // skip block statement
@@ -702,8 +700,7 @@ func (p *Parser) parseInsertStmt() ast.Statement {
 	}
 
 	if hasBody {
-		p.nextToken() // skip ")"
-		stmt.Block = p.parseBlockStmt()
+		stmt.Block = p.parseBody()
 	}
 
 	p.inserts[stmt.Name.Value] = stmt
@@ -849,9 +846,7 @@ func (p *Parser) parseIfStmt() *ast.IfStmt {
 		return nil
 	}
 
-	p.nextToken() // skip ")"
-
-	stmt.Consequence = p.parseBlockStmt()
+	stmt.Consequence = p.parseBody()
 
 	for p.peekTokenIs(token.ELSE_IF) {
 		alt := p.parseElseIfStmt()
@@ -892,20 +887,17 @@ func (p *Parser) parseElseIfStmt() *ast.ElseIfStmt {
 		return nil
 	}
 
-	p.nextToken() // skip ")"
-
 	return &ast.ElseIfStmt{
 		Token:       p.curToken,
 		Condition:   condition,
-		Consequence: p.parseBlockStmt(),
+		Consequence: p.parseBody(),
 	}
 }
 
 func (p *Parser) parseAlternativeBlock() *ast.BlockStmt {
 	p.nextToken() // move to "@else"
-	p.nextToken() // skip "@else"
 
-	alt := p.parseBlockStmt()
+	alt := p.parseBody()
 
 	if p.peekTokenIs(token.ELSE_IF) {
 		p.newError(p.peekToken.ErrorLine(), fail.ErrElseifCannotFollowElse)
@@ -950,13 +942,11 @@ func (p *Parser) parseForStmt() *ast.ForStmt {
 		return nil
 	}
 
-	p.nextToken() // skip ")"
-
-	stmt.Block = p.parseBlockStmt()
+	stmt.Block = p.parseBody()
 
 	if p.peekTokenIs(token.ELSE) {
-		p.nextToken() // skip "@else"
-		stmt.Alternative = p.parseBlockStmt()
+		p.nextToken() // move to "@else"
+		stmt.Alternative = p.parseBody()
 	}
 
 	if !p.expectPeek(token.END) { // move to "@end"
@@ -992,13 +982,11 @@ func (p *Parser) parseEachStmt() *ast.EachStmt {
 		return nil
 	}
 
-	p.nextToken() // skip ")"
-
-	stmt.Block = p.parseBlockStmt()
+	stmt.Block = p.parseBody()
 
 	if p.peekTokenIs(token.ELSE) {
-		p.nextToken() // skip "@else"
-		stmt.Alternative = p.parseBlockStmt()
+		p.nextToken() // move to "@else"
+		stmt.Alternative = p.parseBody()
 	}
 
 	if !p.expectPeek(token.END) { // move to "@end"
@@ -1006,6 +994,18 @@ func (p *Parser) parseEachStmt() *ast.EachStmt {
 	}
 
 	return stmt
+}
+
+// parseBody parses the block that follows the current token.
+// The block is empty when a token that ends a block comes next
+func (p *Parser) parseBody() *ast.BlockStmt {
+	if p.peekTokenIs(token.ELSE, token.ELSE_IF, token.END) {
+		return &ast.BlockStmt{Token: p.curToken}
+	}
+
+	p.nextToken() // move to the first token of the block
+
+	return p.parseBlockStmt()
 }
 
 func (p *Parser) parseBlockStmt() *ast.BlockStmt {
